@@ -67,6 +67,26 @@ Theorem C17_history_fixed : forall mode t ops,
 Proof. exact history_exact_fixed. Qed.
 Print Assumptions C17_history_fixed.
 
+(** The value the Basic->HAMT decision is taken on (needsToSwitchByBlockSize:
+    estimatedSize - size of the replaced entry, sized from the OLD link, + size
+    of the new entry, sized from the NEW link) is the exact length of the block
+    the directory serialises after the edit — fresh adds and replacements alike,
+    whatever the Tsize classes of the old and the new target. *)
+Theorem C17_decision_exact : forall M T e d, wf_gtime T -> good_entry e -> inv M T d ->
+  decision_size e d = blen (node_bytes (fst (add_child e d))).
+Proof. exact decision_exact. Qed.
+Print Assumptions C17_decision_exact.
+
+(** For every dynamic-directory history (adds, replacements, removals, any
+    threshold set before each call): an AddChild converts the directory to a HAMT
+    iff the exact block after the edit is longer than the threshold in force
+    (strictly: a block exactly at the threshold stays basic); nothing else
+    converts a basic directory. *)
+Theorem C17_decision_sound : forall mode t ops,
+  wf_gtime t -> Forall wf_dop ops -> dyn_sound (new_dir mode t) ops = true.
+Proof. exact decision_sound. Qed.
+Print Assumptions C17_decision_sound.
+
 (** Finding C17-1 (model of today's NewBasicDirectoryFromNode, [fl = false]):
     reloading the serialised block of a directory whose stored mode has no
     permission bits yields an estimate that is NOT the block length, while the
@@ -93,4 +113,21 @@ Proof.
   - repeat constructor; cbn [e_cid e_name e_tsize]; unfold blen, max_len, two64;
       cbn [length app repeat]; try lia.
   - split; vm_compute; reflexivity.
+Qed.
+
+(** the decision theorems are not vacuous: a replacement one Tsize class up
+    crosses a threshold placed at the old block size *)
+Example C17_decision_example :
+  let c := [18; 32] ++ repeat 7 32 in
+  let ops := [(200, OAdd {| e_name := [97]; e_cid := c; e_tsize := 4 |});
+              (200, OAdd {| e_name := [98]; e_cid := c; e_tsize := 4 |});
+              (90, OAdd {| e_name := [97]; e_cid := c; e_tsize := 311 |})] in
+  Forall wf_dop ops /\
+  map (fun x => (fst (fst x), snd (fst x))) (dyn_trace (new_dir 0 zero_time) ops)
+    = [(false, 47); (false, 90); (true, 91)].
+Proof.
+  cbv zeta. split.
+  - repeat constructor; cbn [e_cid e_name e_tsize]; unfold blen, max_len, two64, tsize_ok, two63;
+      cbn [length app repeat e_tsize]; try lia.
+  - vm_compute. reflexivity.
 Qed.
